@@ -1,10 +1,10 @@
 package main
 
 import (
-	"go/types"
 	"encoding/json"
 	"flag"
 	"fmt"
+	"go/types"
 	"os"
 	"path/filepath"
 	"sort"
@@ -241,13 +241,13 @@ func runFuncs(keys []string, repo string, verbose, safety bool, timeout int) int
 // ---- known findings ----
 
 type KnownFinding struct {
-	Status      string `json:"status"` // "open" or "fixed"
-	Property    string `json:"property"`
-	ID          string `json:"id"`
-	Obligation  string `json:"obligation"` // obligation name prefix that is expected to fail
-	What        string `json:"what"`
-	Witness     string `json:"witness"`
-	Commit      string `json:"commit,omitempty"`
+	Status     string `json:"status"` // "open" or "fixed"
+	Property   string `json:"property"`
+	ID         string `json:"id"`
+	Obligation string `json:"obligation"` // obligation name prefix that is expected to fail
+	What       string `json:"what"`
+	Witness    string `json:"witness"`
+	Commit     string `json:"commit,omitempty"`
 }
 
 func loadKnownFindings() []KnownFinding {
@@ -272,13 +272,13 @@ func oblBase(name string) string {
 }
 
 type oblGroup struct {
-	Name    string
-	Obls    []*Obligation
-	Failed  []*Obligation
-	Solver  string
-	Time    float64
-	Kind    string
-	Clause  string
+	Name   string
+	Obls   []*Obligation
+	Failed []*Obligation
+	Solver string
+	Time   float64
+	Kind   string
+	Clause string
 }
 
 func runCheck(prop, tier, repo string, verbose, safety bool, timeout int) int {
@@ -633,7 +633,7 @@ func writeEvidence(root, prop, tier string, seed int, v *Verifier, funcs, order 
 		"obligations": nObl, "discharged": nDis, "checker_cmd": fmt.Sprintf("bin/govc check %s --tier %s", prop, tier),
 		"trusted_base": trusted, "functions_under_contract": funcs, "per_obligation": perObl, "solver_time_s": round3(solverTime),
 		"canaries_checked": nCanary, "known_findings": known, "samples": samples, "bounded_obligations": 0,
-		"timing_s": map[string]float64{"load": round3(loadT), "vcgen": round3(genT), "solve_wall": round3(solveT)},
+		"timing_s":       map[string]float64{"load": round3(loadT), "vcgen": round3(genT), "solve_wall": round3(solveT)},
 		"contract_files": v.cs.Files,
 	}
 	for k, x := range extra {
